@@ -59,6 +59,11 @@ func (h *RetryHandler) ExecuteWithRetry(
 		return err
 	}
 
+	// Track whether any attempt has started writing to the client: once it has, a retry on
+	// another endpoint would splice two backends' bytes into one response.
+	tracker := &responseStartTracker{ResponseWriter: w}
+	w = tracker
+
 	var lastErr error
 	maxRetries := len(endpoints)
 	attemptCount := 0
@@ -87,11 +92,46 @@ func (h *RetryHandler) ExecuteWithRetry(
 			return lastErr
 		}
 
+		if tracker.started {
+			// Part of this attempt's response already reached the client; failing over now
+			// would mix attempts, so surface the error instead.
+			return lastErr
+		}
+
 		// Handle connection error and retry logic
 		availableEndpoints = h.handleConnectionFailure(ctx, endpoint, lastErr, attemptCount, availableEndpoints, maxRetries)
 	}
 
 	return h.buildFinalError(availableEndpoints, maxRetries, lastErr)
+}
+
+// responseStartTracker records whether the status line or any body byte has been handed to the
+// client's ResponseWriter during the current request.
+type responseStartTracker struct {
+	http.ResponseWriter
+	started bool
+}
+
+func (t *responseStartTracker) WriteHeader(statusCode int) {
+	t.started = true
+	t.ResponseWriter.WriteHeader(statusCode)
+}
+
+func (t *responseStartTracker) Write(b []byte) (int, error) {
+	t.started = true
+	return t.ResponseWriter.Write(b)
+}
+
+// Flush keeps http.Flusher available to the proxy engines' streaming paths.
+func (t *responseStartTracker) Flush() {
+	if f, ok := t.ResponseWriter.(http.Flusher); ok {
+		f.Flush()
+	}
+}
+
+// Unwrap lets http.ResponseController reach the underlying writer.
+func (t *responseStartTracker) Unwrap() http.ResponseWriter {
+	return t.ResponseWriter
 }
 
 // preserveRequestBody reads and preserves request body for potential retries
